@@ -9,6 +9,7 @@ import CruxVerif.Lemmas.RtTask
 import CruxVerif.Lemmas.Resolve
 import CruxVerif.Lemmas.Occ
 import CruxVerif.Lemmas.Timer.ClearedSet
+import CruxVerif.Lemmas.Futures
 namespace Props.C13
 open M M.Rt M.Bridge M.Slab
 
@@ -177,6 +178,39 @@ theorem charges_are_distinct (w : World) (c tid tid' s s' l : Nat) (h : (w.leaf 
   rw [h] at h'
   cases h'
   rfl
+
+/-! ### task FUTURES (first clause: "its future and everything it captured are dropped")
+
+`Meta.taskAlive` is the model's drop guard of a task future: set when the task is created, cleared only by `dropTask`.
+`M.Hosts.liveFutures` counts them; the harness counts real drop guards captured by the task futures and the two numbers are
+compared after every step of every direct `(task …)` case (`g<N>`, oracle key task-future-not-dropped). -/
+
+/-- **a finished or cancelled task's future is dropped — and no other task's** (executor.rs:173-181): after
+    `finishTask` the task's own guard is gone and every other guard is exactly as it was -/
+theorem finished_task_future_dropped (c tid : Nat) (w : World) (t : Task) (hg : (w.cmd c).tasks.get? tid = some t)
+    (ht : hostFreeB t.fut = true) (hs : t.serial < w.metas.length) :
+    ((finishTask c tid w).getMeta t.serial).taskAlive = false ∧
+    ∀ s, s ≠ t.serial → ((finishTask c tid w).getMeta s).taskAlive = (w.getMeta s).taskAlive :=
+  finishTask_future c tid w t hg ht hs
+
+/-- dropping a task whose future was alive takes exactly one off the number of live futures (the quantity the harness
+    observes with drop guards) -/
+theorem dropped_task_counted_once (w : World) (t : Task) (ht : hostFreeB t.fut = true) (hs : t.serial < w.metas.length)
+    (ha : (w.getMeta t.serial).taskAlive = true) : M.Hosts.liveFutures (w.dropTask t) + 1 = M.Hosts.liveFutures w :=
+  liveFutures_dropTask w t ht hs ha
+
+/-- **an aborted command drops the future of every task it stored** (`self.tasks.clear()`, executor.rs:150-154), for any
+    task layer: after `run_until_settled` on an aborted command no stored task's guard is alive and the slab is empty -/
+theorem aborted_command_drops_task_futures (runTask : Nat → Nat → World → Option (TaskState × World)) (c : Nat)
+    (w w' : World) (ha : w.aborted c = true) (h : runUntilSettledF runTask c w = some w')
+    (hf : ∀ t ∈ (w.cmd c).tasks.values, hostFreeB t.fut = true ∧ t.serial < w.metas.length) :
+    ∀ t ∈ (w.cmd c).tasks.values, (w'.getMeta t.serial).taskAlive = false := by
+  unfold runUntilSettledF at h
+  simp only [ha, if_true, Option.some.injEq] at h
+  subst h
+  intro t ht
+  have := (dropAll_futures (w.cmd c).tasks.values w hf).1 t ht
+  exact this
 
 /-! ### the cleared-timer set of the legacy Time capability (crux_time/src/lib.rs: `clear`, `TimerFuture`, `LIVE_TIMERS`)
 
